@@ -57,8 +57,10 @@ def classify(v):
     if isinstance(v, str):
         if v == '':
             raise Unjudged('empty-text')
-        if _NUMERIC_TEXT.match(v) or v.strip().lower() in ('true', 'false'):
-            raise Unjudged('numeric-or-boolean-text')
+        if _NUMERIC_TEXT.match(v):
+            raise Unjudged('numeric-text')
+        # ("true", "2020-01-01", "inf": text that some converter would accept
+        # is still text that is not numeric)
         return 'text'
     raise Unjudged('unknown-value-kind')
 
@@ -181,7 +183,9 @@ def selftest():
             raise AssertionError(fn)
     assert aggregate('AVERAGE', b + [('lit', 4)]) == 4
     assert aggregate('COUNT', b + [('lit', 4)]) == 1
-    for silent in ('5', ' 1e3 ', 'TRUE', True, ''):
+    assert aggregate('SUM', [R((1, 'TRUE', '2020-01-01', 'inf'))]) == 1
+    assert aggregate('COUNTA', [R((1, 'TRUE'))]) == 2
+    for silent in ('5', ' 1e3 ', True, ''):
         try:
             aggregate('SUM', [R((1, silent))])
         except Unjudged:
